@@ -170,6 +170,93 @@ def _callee(e):
     return ast.unparse(e.func).split('.')[-1] if isinstance(e, ast.Call) else None
 
 
+# ---- value-transparent conversions (dtype casts): the theorems are about VALUES, so `x.astype(..)`, `np.asarray(x, ..)` and calls of
+# module-level cast helpers (functions that return their first argument, possibly converted) are looked through; whether the
+# arithmetic is done in FLOATING POINT is a separate, translated fact (psdArithmeticInFloatingPoint, brmsWorksInFloatingPoint)
+_CASTS = {}          # helper name -> does it convert non-floating input to a floating type?   (set by generate())
+_FLOATISH = ('float', 'np.float64', 'numpy.float64', 'np.double', 'np.float32', 'numpy.float32', 'config.precision', 'precision',
+             "'float64'", "'float32'", "'f8'", "'f4'", "'d'", 'np.longdouble', 'np.result_type(float,array)', 'np.result_type(array,float)')
+_ASARRAY = ('np.asarray', 'np.asanyarray', 'np.ascontiguousarray', 'np.asfortranarray', 'np.array',
+            'numpy.asarray', 'numpy.asanyarray', 'numpy.ascontiguousarray', 'numpy.asfortranarray', 'numpy.array')
+
+
+def _cast_info(e):
+    """is `e` (at its top) a value-transparent conversion?  -> (inner expression, converts to floating point: bool) or None"""
+    if not isinstance(e, ast.Call):
+        return None
+    f = e.func
+    kws = {k.arg: k.value for k in e.keywords if k.arg}
+    if isinstance(f, ast.Attribute) and f.attr == 'astype' and (e.args or 'dtype' in kws):
+        tgt = e.args[0] if e.args else kws['dtype']
+        return f.value, ast.unparse(tgt).replace(' ', '').replace('"', "'") in _FLOATISH
+    name = ast.unparse(f)
+    if name in _ASARRAY and e.args:
+        tgt = kws.get('dtype', e.args[1] if len(e.args) > 1 else None)
+        return e.args[0], tgt is not None and ast.unparse(tgt).replace(' ', '').replace('"', "'") in _FLOATISH
+    if isinstance(f, ast.Name) and f.id in _CASTS and e.args:
+        return e.args[0], _CASTS[f.id]
+    if isinstance(f, ast.Attribute) and f.attr == 'copy' and not e.args:
+        return None                # a copy is not a cast (aliasing matters elsewhere)
+    return None
+
+
+def _strip_casts(e):
+    import copy
+
+    class S(ast.NodeTransformer):
+        def visit_Call(self, node):
+            node = self.generic_visit(node)
+            ci = _cast_info(node)
+            return ci[0] if ci is not None else node
+    return S().visit(copy.deepcopy(e))
+
+
+def _floating_cast_on_top(e):
+    """does the value of `e` pass through a conversion to floating point (possibly under further transparent casts)?"""
+    while True:
+        ci = _cast_info(e)
+        if ci is None:
+            return False
+        if ci[1]:
+            return True
+        e = ci[0]
+
+
+def _cast_helpers(mod):
+    """module-level functions that return their first argument, possibly converted: every `return` is the parameter under zero or
+    more transparent conversions.  floating = every converting return converts to a floating type, and a bare `return <param>`
+    (if any) sits in a function that tests the dtype"""
+    out = {}
+    for fn in mod.body:
+        if not (isinstance(fn, ast.FunctionDef) and fn.args.args and not fn.args.vararg):
+            continue
+        a = fn.args.args[0].arg
+        rets = find_returns(fn)
+        if not rets:
+            continue
+        ok, conv, bare = True, [], 0
+        for r_ in rets:
+            e, fl, n = r_, False, 0
+            while True:
+                ci = _cast_info(e)
+                if ci is None:
+                    break
+                e, fl, n = ci[0], fl or ci[1], n + 1
+            if not (isinstance(e, ast.Name) and e.id == a):
+                ok = False
+                break
+            if n:
+                conv.append(fl)
+            else:
+                bare += 1
+        if not ok:
+            continue
+        tests_dtype = any(isinstance(n_, ast.Attribute) and n_.attr in ('dtype', 'kind') for n_ in ast.walk(fn)) \
+            or any(isinstance(n_, ast.Call) and _callee(n_) in ('issubdtype', 'isrealobj', 'iscomplexobj') for n_ in ast.walk(fn))
+        out[fn.name] = bool(conv) and all(conv) and (bare == 0 or tests_dtype)
+    return out
+
+
 def _power_of(e):
     """`abs(X)**2`, `abs(X)*abs(X)`, `X.real**2 + X.imag**2`, `(X*conj(X)).real` -> X; else None"""
     if isinstance(e, ast.BinOp) and isinstance(e.op, ast.Pow) and isinstance(e.right, ast.Constant) and e.right.value == 2 \
@@ -192,12 +279,25 @@ def _power_of(e):
 
 
 def _sumsq_of(e):
-    """`(W**2).sum()`, `(W*W).sum()`, `np.sum(W**2)`, `np.sum(W*W)` -> W; else None"""
+    """`(W**2).sum()`, `(W*W).sum()`, `np.sum(W**2)`, `np.sum(W*W)` (a `dtype=` keyword allowed), `np.vdot(W, W)`,
+    `np.dot(W.ravel(), W.ravel())`, `np.linalg.norm(W)**2` -> W; else None"""
     inner = None
-    if isinstance(e, ast.Call) and isinstance(e.func, ast.Attribute) and e.func.attr == 'sum' and not e.args and not e.keywords:
+    if isinstance(e, ast.Call) and isinstance(e.func, ast.Attribute) and e.func.attr == 'sum' and not e.args \
+            and all(k.arg == 'dtype' for k in e.keywords):
         inner = e.func.value
-    if isinstance(e, ast.Call) and ast.unparse(e.func) in ('np.sum', 'numpy.sum', 'sum') and len(e.args) == 1 and not e.keywords:
+    if isinstance(e, ast.Call) and ast.unparse(e.func) in ('np.sum', 'numpy.sum', 'sum') and len(e.args) == 1 \
+            and all(k.arg == 'dtype' for k in e.keywords):
         inner = e.args[0]
+    if isinstance(e, ast.Call) and ast.unparse(e.func) in ('np.vdot', 'numpy.vdot', 'np.dot', 'numpy.dot', 'np.inner') and len(e.args) == 2 \
+            and not e.keywords and _norm(e.args[0]) == _norm(e.args[1]):
+        a = e.args[0]
+        if isinstance(a, ast.Call) and isinstance(a.func, ast.Attribute) and a.func.attr in ('ravel', 'flatten') and not a.args:
+            return a.func.value
+        return a if ast.unparse(e.func).endswith('vdot') else None
+    if isinstance(e, ast.BinOp) and isinstance(e.op, ast.Pow) and isinstance(e.right, ast.Constant) and e.right.value == 2 \
+            and isinstance(e.left, ast.Call) and ast.unparse(e.left.func) in ('np.linalg.norm', 'numpy.linalg.norm') and len(e.left.args) == 1 \
+            and not e.left.keywords:
+        return e.left.args[0]
     if inner is None:
         return None
     if isinstance(inner, ast.BinOp) and isinstance(inner.op, ast.Pow) and isinstance(inner.right, ast.Constant) and inner.right.value == 2:
@@ -245,12 +345,9 @@ def _psd_analysis(fn):
     return r
 
 
-def _psd_analysis_(fn):
-    ssa = _SSA()
-    ssa.run(fn.body)
-    if not (isinstance(ssa.ret, ast.Tuple) and len(ssa.ret.elts) == 3):
-        raise Untranslatable('psd does not return a 3-tuple')
-    ux, uy, pw = ssa.ret.elts
+def _psd_parts(ret):
+    """structure of the returned 3-tuple -> dict(pre, post, power, Wt, Ws, D, ux, uy)"""
+    ux, uy, pw = ret.elts
     spectra, windows = [], []
 
     def mk_p(node, X):
@@ -275,13 +372,27 @@ def _psd_analysis_(fn):
     pre, D = _rot_call(inner.args[0])
     if not (isinstance(D, ast.BinOp) and isinstance(D.op, ast.Mult)):
         raise Untranslatable(f'transform input is {ast.unparse(D)[:40]}')
+    return {'pre': pre, 'post': post, 'power': pw2, 'D': D, 'Ws': windows[0] if windows else None, 'ux': ux, 'uy': uy}
+
+
+def _psd_analysis_(fn):
+    ssa = _SSA()
+    ssa.run(fn.body)
+    if not (isinstance(ssa.ret, ast.Tuple) and len(ssa.ret.elts) == 3):
+        raise Untranslatable('psd does not return a 3-tuple')
+    a = _psd_parts(_strip_casts(ssa.ret))            # VALUES: conversions looked through
+    D = a['D']
     if _norm(D.left) == 'height':
-        Wt = D.right
+        a['Wt'] = D.right
     elif _norm(D.right) == 'height':
-        Wt = D.left
+        a['Wt'] = D.left
     else:
         raise Untranslatable(f'transform input is {ast.unparse(D)[:40]}')
-    return {'pre': pre, 'post': post, 'power': pw2, 'Wt': Wt, 'Ws': windows[0] if windows else None, 'ux': ux, 'uy': uy}
+    try:
+        a['raw'] = _psd_parts(ssa.ret)                # the same with the conversions left in (for the floating-point fact)
+    except Untranslatable:
+        a['raw'] = None
+    return a
 
 
 def _axis_call(e):
@@ -644,6 +755,9 @@ def generate(repo):
 
     ftm, _ = load(repo, 'prysm/fttools.py')
     rdm, _ = load(repo, 'prysm/_richdata.py')
+    _CASTS.clear()
+    _CASTS.update(_cast_helpers(ifm))
+    _PSD_CACHE.clear()
 
     # ---- psd: what the function RETURNS, by last-definition dataflow (rebinding / reordering / renaming are followed)
     def psd_rots():
@@ -697,6 +811,28 @@ def generate(repo):
             return False          # the modulus / one component of the spectrum is there, but not as a squared modulus
         return None
     g.fact('psdPowerIsSquaredModulus', 'prysm/interferogram.py:psd', psd_sq_modulus)
+
+    def psd_float():
+        """the arithmetic of psd() is carried out in FLOATING POINT whatever the dtype of the map and of a user window (a 0/1
+        boolean aperture, 8-bit weights, raw integer counts are legitimate inputs; products and squares of narrow integer types wrap
+        around): the window whose squares are summed has passed a conversion to a floating type, and so has at least one factor of
+        height * window.  False = recognisably not (the arrays enter the arithmetic as they were handed over)"""
+        a = _psd_analysis(get_def(ifm, 'psd'))
+        raw = a['raw']
+        if raw is None or raw['Ws'] is None:
+            return None
+
+        def from_outside(e):
+            # after looking through conversions: the caller's map, or the window made for it (a user array comes back as it is)
+            t = _strip_casts(e)
+            return _norm(t) == 'height' or (isinstance(t, ast.Call) and _callee(t) == 'make_window')
+        ws, dl, dr = raw['Ws'], raw['D'].left, raw['D'].right
+        if not all(from_outside(x) for x in (ws, dl, dr)):
+            return None
+        s2_ok = _floating_cast_on_top(ws)
+        prod_ok = _floating_cast_on_top(dl) or _floating_cast_on_top(dr)
+        return s2_ok and prod_ok
+    g.fact('psdArithmeticInFloatingPoint', 'prysm/interferogram.py:psd', psd_float)
 
     def psd_window_source():
         a = _psd_analysis(get_def(ifm, 'psd'))
@@ -846,6 +982,31 @@ def generate(repo):
             return False          # masked writes go into the caller's array
         return None
     g.fact('brmsReturnsSqrtOfIntegralOfACopy', 'prysm/interferogram.py:bandlimited_rms', brms_returns_sqrt)
+
+    def brms_float():
+        """bandlimited_rms masks and integrates a FLOATING-POINT array whatever dtype the caller's PSD has (the trapezoid rule adds
+        neighbouring samples: in a boolean / narrow integer type that wraps around)"""
+        fn = get_def(ifm, 'bandlimited_rms')
+        w = find_assigns(fn, 'work')
+        if len(w) != 1:
+            return None
+        wline = [st.lineno for st in _stmts(fn) if isinstance(st, ast.Assign) and st.value is w[0]][0]
+        # the value of `psd` when `work` is made: follow rebindings of the parameter above that line
+        cur = ast.Name(id='psd', ctx=ast.Load())
+        floating = False
+        for st in fn.body:
+            if st.lineno >= wline:
+                break
+            if isinstance(st, ast.Assign) and len(st.targets) == 1 and isinstance(st.targets[0], ast.Name) and st.targets[0].id == 'psd':
+                if _norm(_strip_casts(st.value)) != 'psd':
+                    return None
+                floating = floating or _floating_cast_on_top(st.value)
+        v = w[0]
+        inner = v.func.value if (isinstance(v, ast.Call) and isinstance(v.func, ast.Attribute) and v.func.attr == 'copy' and not v.args) else v
+        if _norm(_strip_casts(inner)) != 'psd':
+            return None
+        return floating or _floating_cast_on_top(inner)
+    g.fact('brmsWorksInFloatingPoint', 'prysm/interferogram.py:bandlimited_rms', brms_float)
 
     def brms_centre():
         fn = get_def(ifm, 'bandlimited_rms')
